@@ -388,6 +388,12 @@ RPC_BODIES = (
     "valid", "garbage", "empty", "truncated", "bitflip",
     "md_missing", "md_mismatch", "no_version", "bad_version", "bad_params", "extra_param", "null_param", "no_batch",
 )
+WRONG_CTS = (
+    "application/json", "text/plain", "application/octet-stream",
+    ARROW_CT + "ing", ARROW_CT + "+json", ARROW_CT + ".v2", ARROW_CT + "s", "x" + ARROW_CT, "x-" + ARROW_CT,
+    ARROW_CT.rsplit(".", 1)[0], ARROW_CT.rsplit(".", 1)[0] + ".file", ARROW_CT.replace("application/", "text/"),
+    ARROW_CT.replace("application/", "application/x-"), ARROW_CT + "/x", "application/*", "*/*",
+)
 RPC_CTS = ("ok", "ok", "wrong", "missing", "param")
 RPC_CENCS = ("none", "none", "zstd", "gzip", "identity", "br", "zstd_corrupt", "gzip_corrupt", "zstd_huge", "upper")
 RPC_TOKENS = ("valid", "valid", "tampered", "missing", "garbage", "swapped")
@@ -633,7 +639,9 @@ def build_rpc_request(
     if ct == "ok":
         headers["Content-Type"] = ARROW_CT
     elif ct == "wrong":
-        headers["Content-Type"] = ("application/json", "text/plain", "application/octet-stream")[mut % 3]
+        # unrelated types and near misses of the Arrow stream type (a different media type that shares its prefix /
+        # suffix / subtype tree); case and whitespace variants are left out: RFC 9110 calls those the same type
+        headers["Content-Type"] = WRONG_CTS[mut % len(WRONG_CTS)]
     elif ct == "param":
         headers["Content-Type"] = ARROW_CT + "; charset=utf-8"
     headers.update(accept_headers(probe["accept"]))
